@@ -186,3 +186,21 @@ package cppki
 //@   ensures result2 == nil ==> len(predecessor.AuthoritativeASes) == len(trc.AuthoritativeASes) && (forall j int :: 0 <= j && j < len(trc.AuthoritativeASes) ==> predecessor.AuthoritativeASes[j] == trc.AuthoritativeASes[j])
 //@   ensures result2 == nil ==> len(result0) == len(trc.Votes)
 //@   ensures result2 == nil ==> forall j int :: 0 <= j && j < len(trc.Votes) ==> inmap(predCerts.Regular, trc.Votes[j]) && result0[j] == predCerts.Regular[trc.Votes[j]]
+
+//@ # ---- C34: the shape of a chain. What makes a single certificate a valid SCION certificate of some type (key
+//@ # usages, ASN.1 attributes, ...) is not interpreted: certGood / certKind name the outcome of ValidateCert.
+//@ spec func certGood(c *x509.Certificate) bool uninterpreted
+//@ spec func certKind(c *x509.Certificate) CertType uninterpreted
+//@ func ValidateCert
+//@   trusted
+//@   modifies nothing
+//@   ensures (result1 == nil) == certGood(c)
+//@   ensures result1 == nil ==> result0 == certKind(c)
+//@ # a chain is an AS certificate followed by the CA certificate, both valid, and the CA's validity covers the AS's
+//@ func ValidateChain
+//@   props C34
+//@   requires forall i int :: 0 <= i && i < len(certs) ==> certs[i] != nil
+//@   modifies nothing
+//@   ensures result == nil ==> len(certs) == 2 && certGood(certs[0]) && certKind(certs[0]) == AS && certGood(certs[1]) && certKind(certs[1]) == CA
+//@   ensures result == nil ==> certs[1].NotBefore.ext <= certs[0].NotBefore.ext && certs[0].NotAfter.ext <= certs[1].NotAfter.ext
+//@   ensures len(certs) == 2 && certGood(certs[0]) && certKind(certs[0]) == AS && certGood(certs[1]) && certKind(certs[1]) == CA && certs[1].NotBefore.ext <= certs[0].NotBefore.ext && certs[0].NotAfter.ext <= certs[1].NotAfter.ext ==> result == nil
